@@ -219,7 +219,7 @@ def would_break_class(s, phases):
     """Stream.phases = phases raises after switching __class__ (see ASSUMPTIONS)"""
     if is_multi(s) or len(set(phases)) == 1: return False
     p = s.phase
-    return not (p in phases or swapcase(p) in phases)
+    return bool(s._imol.data.dct) and not (p in phases or swapcase(p) in phases)
 
 def inconsistent(s):
     """a MultiStream whose SparseArray was re-shaped through another indexer sharing it (rows and phases no longer align)"""
@@ -617,13 +617,14 @@ def _s(kind, pkg, **kw):
     d.update(kw)
     return d
 _RX = {'a': 1., 'b': 2., 'X': 0.5}
-# minimised inputs of the defects found with this check (they must pass once the pending fixes are applied)
+# minimised inputs of the defects found with this check; cases 3-6 were repaired in /repo by the fix: commits
+# 70f04fc, 1c6e5d7, 747278e, 635bcdf and stay as regression cases; 1, 2, 7, 8 pass once pending_fixes/C13_1..4 are applied
 CORPUS = [
     # 1 characterization_factors given to the constructor are discarded (and so lost by pickling)
     {'streams': [_s('S', 0, phase='l', flow=[1., 0., 2.], cf={'GWP': 1.5}, id='x1'),
                  _s('M', 0, phases=['g', 'l'], flows={'g': [0., 4., 0.]}, cf={'GWP': 2., 'FEC': 0.25}, id='x2')],
      'ops': [['reduce', 0], ['reduce', 1]], 'rx': _RX},
-    # 2 Stream.copy_like(one-phase MultiStream): T, P not copied, other-package flows copied by position
+    # 2 Stream.copy_like(one-phase MultiStream): T, P not copied (other-package flows by position: repaired in 70f04fc)
     {'streams': [_s('S', 1, phase='l', flow=[0., 0., 3., 0.], id='x1'),
                  _s('M', 0, phases=['g'], flows={'g': [1., 0., 2.]}, T=350.5, P=200000., id='x2')],
      'ops': [['copy_like', 0, 1]], 'rx': _RX},
